@@ -82,4 +82,29 @@ theorem ioLoop_no_message_never_exits (sched : List (Bool × Option Pos))
     simp only [Option.isSome_none, Bool.false_eq_true, and_false, if_false, takeMsg]
     exact ih (fun y hy => hno y (by simp [hy]))
 
+
+/-- **`go` never hangs** once a board has arrived before the deadline poll: whatever else the
+    schedule does, the dispatcher gets a board back from the polling loop (the search thread hands
+    one over before its first evaluation starts — `search_always_hands_over_a_move`, Props/C03) -/
+theorem go_does_not_hang (σ : Sess) (raw : List Char) (gt : GameTime)
+    (hc : String.ofList ((splitOn ' ' (cleanInput raw)).headD []) = "go")
+    (hg : parseGoCommand (splitOn ' ' (cleanInput raw)) = some gt)
+    (pre rest : List (Bool × Option Pos)) (arr : Option Pos)
+    (hpre : ∀ x ∈ pre, x.1 = false)
+    (harrived : (pre.foldl (fun acc x => takeMsg x.2 acc) none).isSome)
+    (hsearch : search σ.board σ.table (calculateTimeSlice gt σ.board.toMove) = ioLoop (pre ++ (true, arr) :: rest) none) :
+    step h search σ (some raw) ≠ .hang := by
+  have hex := ioLoop_exits pre rest none _ hpre rfl harrived arr
+  rw [hex] at hsearch
+  unfold step
+  simp +decide only [hc, if_true, if_false, hg]
+  split
+  · intro hh; cases hh
+  · rw [hsearch]
+    cases hb : pre.foldl (fun acc x => takeMsg x.2 acc) none with
+    | none => rw [hb] at harrived; cases harrived
+    | some b =>
+      simp only
+      split <;> (intro hh; cases hh)
+
 end Walleye
